@@ -21,6 +21,7 @@ import (
 
 	sdkmath "cosmossdk.io/math"
 	sdk "github.com/cosmos/cosmos-sdk/types"
+	"github.com/ethereum/go-ethereum/common"
 
 	fxtypes "github.com/functionx/fx-core/v8/types"
 	_ "github.com/functionx/fx-core/v8/x/arbitrum/types"
@@ -907,6 +908,14 @@ func interpreted(k *kind, c claim) string {
 	if f := v.FieldByName("TargetIbc"); f.IsValid() {
 		f.SetString(fmt.Sprintf("%+v", fxtypes.ParseFxTarget(f.String(), true)))
 	}
+	// an address the handlers read only through its typed accessor (regenerated handlerView): the account it names
+	if chain := v.FieldByName("ChainName").String(); knownChain(chain) {
+		for name := range typedOnly[k.name] {
+			if f := v.FieldByName(name); f.IsValid() && f.Kind() == reflect.String && ct.ValidateExternalAddr(chain, f.String()) == nil {
+				f.SetString("@" + ct.ExternalAddrToHexAddr(chain, f.String()).Hex())
+			}
+		}
+	}
 	return k.effect(cp)
 }
 
@@ -966,6 +975,7 @@ func TestC03(t *testing.T) {
 		}
 	}
 	r.targets(g)
+	r.addresses(g)
 
 	nBase := hx.N(60, 800) // base claims per type
 	for _, k := range ks {
@@ -1042,6 +1052,92 @@ func (r *run) targets(g *gen) {
 			one(raw + "0")
 			one(raw + "zz")
 			one("0x" + raw)
+		}
+	}
+}
+
+// addresses: text -> account of both address classes (types.ValidateExternalAddr, ExternalAddrToHexAddr, ExternalAddrToAccAddr)
+// against Model/C03Addr.lean — well-formed texts, the other texts of the same tron account (other version bytes, a 22-byte
+// payload), broken checksums, wrong lengths, foreign characters, and the witnesses of the Lean theorems.  Monitor: on a
+// chain of the eth class two accepted texts never name one account (on tron they do — counted, it is the fact the hash
+// formats must live with: Props.C03.tron_class_admits_several_texts)
+func (r *run) addresses(g *gen) {
+	r.out.Reset("addresses")
+	seenA := map[string]bool{}
+	ethText := map[string]string{} // account -> accepted text, eth class
+	one := func(chain, s string) {
+		if seenA[chain+"/"+s] {
+			return
+		}
+		seenA[chain+"/"+s] = true
+		ck := common.IsHexAddress(s) && common.HexToAddress(s).Hex() == s
+		obs := "invalid"
+		if ct.ValidateExternalAddr(chain, s) == nil {
+			hexA := ct.ExternalAddrToHexAddr(chain, s)
+			obs = fmt.Sprintf("ok %s %s", hex.EncodeToString(hexA.Bytes()), hex.EncodeToString(ct.ExternalAddrToAccAddr(chain, s)))
+			r.out.Count("addr:" + chain + ":valid")
+			if chain != "tron" {
+				if prev, ok := ethText[hexA.Hex()]; ok && prev != s {
+					r.violate("address class eth: two accepted texts name one account", []string{"xaddr " + chain + " " + prev, "xaddr " + chain + " " + s})
+				}
+				ethText[hexA.Hex()] = s
+			}
+		} else {
+			r.out.Count("addr:" + chain + ":invalid")
+		}
+		r.out.Emit("xaddr "+hx.HexS(chain)+" "+hx.HexS(s)+" "+b01(ck), obs)
+	}
+	for _, w := range []string{"TA4Y62o6YC2Zsck9rZVGTvqW1AQ7X9zTnj", "TZQ9596PFNVSh3tEsypax47Hdff4DKLkmj", "1QRw55if6eNVXspcHiAsRuR9isujzr8woR",
+		"16L5yRNPTuciSgXGHqYwn9N6NeoKqopAu", "1111111111111111111111111111111111"} {
+		one("tron", w)
+	}
+	if ct.ValidateExternalAddr("tron", "TA4Y62o6YC2Zsck9rZVGTvqW1AQ7X9zTnj") != nil || ct.ValidateExternalAddr("tron", "TZQ9596PFNVSh3tEsypax47Hdff4DKLkmj") != nil {
+		r.out.Violate("harness: the witnesses of tron_class_admits_several_texts are not accepted by the real ValidateTronAddress")
+	}
+	one("eth", "0x0000000000000000000000000000000000000001")
+	one("eth", "0x00000000000000000000000000000000000000aB")
+	one("eth", "0x00000000000000000000000000000000000000Ab")
+	const b58 = "123456789ABCDEFGHJKLMNPQRSTUVWXYZabcdefghijkmnopqrstuvwxyz"
+	for i := 0; i < hx.N(150, 2000); i++ {
+		chain := g.chain()
+		s := ct.ExternalAddrToStr(chain, g.bytes(20))
+		if i%7 == 0 {
+			// accounts with leading zero bytes (short numbers after the version byte)
+			bz := g.bytes(20)
+			for j := 0; j <= g.rng.Intn(4); j++ {
+				bz[j] = 0
+			}
+			s = ct.ExternalAddrToStr(chain, bz)
+		}
+		one(chain, s)
+		others := tronOtherTexts(s)
+		r.out.Count(fmt.Sprintf("addr:%s:other-texts-of-the-account:%d", chain, len(others)))
+		for _, o := range others {
+			one(chain, o.val)
+			if ct.ExternalAddrToHexAddr(chain, o.val) != ct.ExternalAddrToHexAddr(chain, s) {
+				r.out.Violate("harness: tronOtherTexts produced a text of another account")
+			}
+		}
+		ps := plainPerturb(g, s)
+		for _, j := range g.rng.Perm(len(ps))[:4] {
+			one(chain, ps[j].val)
+		}
+		// one character replaced (checksum), one dropped / added (length), the text under the other class
+		bs := []byte(s)
+		k := g.rng.Intn(len(bs))
+		bs[k] = b58[g.rng.Intn(len(b58))]
+		one(chain, string(bs))
+		one(chain, s[:len(s)-1])
+		one(chain, s+string(b58[g.rng.Intn(len(b58))]))
+		if chain == "tron" {
+			one("eth", s)
+			rb := make([]byte, 34)
+			for j := range rb {
+				rb[j] = b58[g.rng.Intn(len(b58))]
+			}
+			one("tron", string(rb))
+		} else {
+			one("tron", s)
 		}
 	}
 }
